@@ -71,6 +71,12 @@ checks.update({
    note="Assumes getrandom/getentropy is the only source of run-to-run variation; seeds are a proxy for hash-map iteration orders (exhaustive over the listed (input, seed) grid, not over all orders).",
    technique="exhaustive enumeration of an (input x environment-answer) grid with the nondeterministic input (hash seed) under harness control"),
 })
+checks.update({
+ "C01": dict(level=MC, ref="DESIGN.md §4 C01",
+   text="Every generated program (flat jump graphs, structured blocks, expression bodies, plain instruction/label/string sequences; bounded E-DFS) is compiled for 11 host formats (ANM v0/v2/v8, old ECL th06/07/08, STD 06/12, MSG 06/09/12) with a user mapfile of aliases; every distinct binary and every bundled game file is decompiled under every enumerated subset of the five --no-* flags x formatter widths x {aliases, signatures-only, no} user mapfile, recompiled with the original as image source, and must be byte-identical unless decompile printed a listed information-loss warning.",
+   note="In-process drivers mirror cli_def; runs whose decompile prints a loss warning are exempt and counted; one recorded known finding (conditional jump on two literals).",
+   technique="bounded exhaustive enumeration of programs x configurations with a byte-identity round-trip oracle on the real compiler/decompiler"),
+})
 pending = {}
 def main():
     try:
